@@ -26,9 +26,34 @@ PROPS = {
         "assumptions": ["container/list and Go maps behave as the list / association-list model (tested by every case)",
                         "keys and values of the harness are small integers; the model is parametric in them"],
     },
+    "C10": {
+        "run": "Run.Run_C10", "race": True,
+        "rule": "worker processes built with -race run 2..16 goroutines issuing random Store/Load/Delete/Len/Dump streams (small and large key sets, "
+                "capacities 0..8); small recorded histories (<= 8 calls, invoke/return stamps from one atomic counter) are checked for "
+                "linearizability inside Coq against the sequential model and against the abstract LRU; every run is checked at quiescence "
+                "(0 <= Len <= cap, Dump lines = Len); race reports, panics and timeouts are violations. distinct cell = (kind, capacity, goroutines, "
+                "events, overlapping calls / final length).",
+        "trusted": ["translator: lock/field summary of cache.go (classification table in harness/cmd/extract/lru.go)",
+                    "correspondence: Go driver c10.go (history recording), Run/Run_C10.v, bin/check",
+                    "Go race detector as the search for concrete racy schedules"],
+        "assumptions": ["PARTIAL: Go memory model, sync.RWMutex internals and the scheduler are outside the model",
+                        "the deletion callback is not re-entrant (granted by the property)",
+                        "SetDelCallBackFn is configuration, called before concurrent use"],
+    },
 }
 
 LEVELS = {
+    "C10": {
+        "text": "Theorems in Coq about an interleaving semantics with a reader/writer lock: the lock/field summary of every LRUCache method is "
+                "regenerated from cache.go on every run and must pass race_freeb (proved sound for all schedules and any number of threads); under "
+                "it every execution of a snapshot/commit machine (which exhibits lost updates and stale reads when exclusion fails) is linearizable "
+                "in commit order and its shared state satisfies C09's invariants. Recorded real histories are checked in Coq by a checker proved sound; "
+                "real data races are searched with the race detector.",
+        "design_ref": "DESIGN.md section 5, C10",
+        "note": "PARTIAL: the Go memory model, sync.RWMutex and the scheduler are not modelled; the translator's read/write classification is trusted; "
+                "deadlock freedom is argued (one lock, no nested acquisition) and searched by timeouts, not proved.",
+        "technique": "Coq proof over all interleavings of a lock-discipline model extracted from source + linearizability checking of recorded histories in Coq + race detector",
+    },
     "C09": {
         "text": "Refinement proofs in Coq: the line-by-line model of cache.go refines an abstract most-recent-first list, which refines an order-free "
                 "timestamp specification (evict the entry with the oldest store-or-load), for every operation history and every capacity >= 0, by "
